@@ -8,6 +8,7 @@ import (
 	"fmt"
 	"strings"
 	"testing"
+	"time"
 
 	"github.com/couchbase/go-blip"
 	"github.com/couchbase/sync_gateway/db"
@@ -63,6 +64,51 @@ func c02bRun(t *testing.T, r *vreport.Report, w *c02World, c c02bCase) {
 		}
 		leakCheck("subChanges", string(raw))
 		r.Add("blip_changes_entries", int64(len(changes)))
+	case "subChangesDocIDs", "subChangesDocIDsSince":
+		// one-shot subChanges restricted to given document ids (every id of the world)
+		got := make(chan string, 64)
+		bt.blipContext.HandlerForProfile["changes"] = func(request *blip.Message) {
+			body, _ := request.Body()
+			if !request.NoReply() {
+				response := request.Response()
+				response.SetBody([]byte("[]"))
+			}
+			got <- string(body)
+		}
+		req := blip.NewRequest()
+		req.SetProfile("subChanges")
+		bt.addCollectionProperty(req)
+		req.Properties["continuous"] = "false"
+		if c.Probe == "subChangesDocIDsSince" {
+			req.Properties["since"] = `"3"`
+		}
+		idsJSON, _ := json.Marshal(map[string]any{"docIDs": w.docs})
+		req.SetBody(idsJSON)
+		bt.Send(req)
+		_ = req.Response()
+		var all []string
+		for done := false; !done; {
+			select {
+			case b := <-got:
+				if b == "null" || b == "" {
+					done = true
+				} else {
+					all = append(all, b)
+				}
+			case <-time.After(20 * time.Second):
+				r.Cap("a subChanges probe was abandoned: no end-of-changes message within 20 s")
+				done = true
+			}
+		}
+		delete(bt.blipContext.HandlerForProfile, "changes")
+		raw := strings.Join(all, " ")
+		for _, d := range w.docs {
+			if !w.everVisible(c.User, d) && strings.Contains(raw, `"`+d+`"`) {
+				r.Violate("C02/blip/existence-revealed/subChanges-docIDs", fmt.Sprintf("user %s (channels %v) is offered document %s, which was never in one of its channels, by a subChanges restricted to document ids: %.300s", c.User, w.users[c.User], d, raw), c)
+			}
+		}
+		leakCheck("subChanges-docIDs", raw)
+		r.Add("blip_changes_messages", int64(len(all)))
 	case "pull":
 		docs := bt.PullDocs()
 		for id, doc := range docs {
@@ -116,7 +162,7 @@ func c02bRun(t *testing.T, r *vreport.Report, w *c02World, c c02bCase) {
 func TestVerifC02Blip(t *testing.T) {
 	r := vreport.Begin("C02")
 	defer r.Finish(t)
-	r.Rule("(b) the part-a worlds over the replication protocol: every user connects over the real BLIP websocket and {asks for the changes feed, pulls every offered revision with attachments, sends unsolicited getAttachment requests for each attachment's digest naming no / the owning / every other document}; non-trivial = distinct (variant, user, probe)")
+	r.Rule("(b) the part-a worlds over the replication protocol: every user connects over the real BLIP websocket and {asks for the changes feed, asks for the changes of given document ids (all ids of the world; from the start and from a later position), pulls every offered revision with attachments, sends unsolicited getAttachment requests for each attachment's digest naming no / the owning / every other document}; non-trivial = distinct (variant, user, probe)")
 	r.Assume("one-shot subChanges; the client side is the repository's BlipTester; proposeChanges / push are write surfaces (C04, C19)")
 	var rc c02bCase
 	if r.Replaying(&rc) {
@@ -129,7 +175,7 @@ func TestVerifC02Blip(t *testing.T) {
 	for _, variant := range []string{"default", "reverse", "principals-last"} {
 		var w *c02World
 		for _, user := range []string{"uA", "uRB", "uNone", "uStar", "uAcc"} {
-			for _, probe := range []string{"subChanges", "pull", "getAttachment"} {
+			for _, probe := range []string{"subChanges", "subChangesDocIDs", "subChangesDocIDsSince", "pull", "getAttachment"} {
 				idx++
 				if !r.Mine(idx) || r.Expired() {
 					continue
